@@ -183,6 +183,33 @@ theorem generic_unknown_rejected (names : List String) (n : String) (a : List To
   have : n ∉ names := by simpa using hn
   simp [collect, this]
 
+/-! ## flex -/
+
+/-- `flex: none` = `0 0 auto` -/
+theorem flex_none (P : Params) (t : Tok) (h : getKeyword t = "none") :
+    expandFlex P [t] = some [("flex-grow", [.num "0"]), ("flex-shrink", [.num "0"]), ("flex-basis", [.ident "auto"])] := by
+  simp [expandFlex, getSingleKeyword, h]
+
+/-- a single flex factor: shrink defaults to 1, basis to 0 -/
+theorem flex_single_factor (P : Params) (t : Tok) (g : String) (hk : getKeyword t ≠ "none")
+    (hb : P.isBasis t = false) (hg : P.growShrink t = some g) :
+    expandFlex P [t] = some [("flex-grow", [.num g]), ("flex-shrink", [.num "1"]), ("flex-basis", [.dim "0" "px"])] := by
+  simp [expandFlex, getSingleKeyword, hk, flexLoop, hb, hg]
+
+/-- a single basis: grow and shrink default to 1 -/
+theorem flex_single_basis (P : Params) (t : Tok) (hk : getKeyword t ≠ "none")
+    (hz : P.intZero t = false) (hb : P.isBasis t = true) :
+    expandFlex P [t] = some [("flex-grow", [.num "1"]), ("flex-shrink", [.num "1"]), ("flex-basis", [t])] := by
+  simp [expandFlex, getSingleKeyword, hk, flexLoop, hb, hz]
+
+/-- a third flex factor is rejected -/
+theorem flex_third_factor_rejected (P : Params) (a b c d : Tok) (ga gb : String)
+    (ha : P.isBasis a = false) (hga : P.growShrink a = some ga)
+    (hb : P.isBasis b = false) (hgb : P.growShrink b = some gb)
+    (hc : P.isBasis c = false) :
+    expandFlex P [a, b, c, d] = none := by
+  simp [expandFlex, getSingleKeyword, flexLoop, ha, hga, hb, hgb, hc]
+
 /-! ## var() -/
 
 /-- termination on ALL environments, cyclic ones included, is part of the definitions
